@@ -562,7 +562,8 @@ def run_case(case):
             out["stats"]["non_staircase_states"] += rec.stair_not
             for c in range(n):
                 idle_total[c] += ic[c]
-            out["C03"] += [f"segment {seg}: {p}" for p in p3]
+            out["C03"] += [f"segment {seg}: {p}" for p in p3 + rec.zs_busy]
+            rec.zs_busy = []
             out["C04"] += [f"segment {seg}: {p}" for p in p4]
             out["C05"] += [f"segment {seg}: {p}" for p in p5]
             infl = 0
@@ -601,6 +602,10 @@ def run_case(case):
         import traceback
         tb = traceback.format_exc()
         out["model"].append(f"case crashed: {e!r} :: {tb[-1500:]}")
+        try:
+            out["C03"] += [f"segment {seg + 1}: {p}" for p in rec.zs_busy]     # the program died in the operation that did it
+        except NameError:
+            pass
         # the innermost frame that belongs to the program or to the harness (frames of libraries the
         # program called, e.g. numpy's Generator.choice, do not count)
         frames = [ln for ln in tb.splitlines() if ln.strip().startswith("File ") and ("/infretis/" in ln or "/verif/py" in ln)]
